@@ -45,7 +45,7 @@ def tool_cases(draw, name, tier):
     if name != "iter_sentinel":
         for s in case["srcs"]:
             s["fl"] = draw(st.sampled_from(["agen", "aclass", "aplain", "aclass", "aclass_noclose", "agenlike", "aproxy",
-                                             "areiter"]))
+                                             "areiter", "alateclose"]))
             s["eqsrc"] = draw(st.integers(0, 2)) == 0
             s["susp"] = draw(st.integers(1, 2))
             s["cret"] = draw(st.sampled_from([None, None, True]))
